@@ -6,7 +6,11 @@ Model: `PlumpyModel/ProcStack/Model.lean` (tasks with context-local stacks, `_pr
 `launch`, re-entrant `execute()`, lifecycle hooks fired by `transition_to` after `_run_task` returned; children awaited
 **inline** in the awaiting task — `await child.step_until_terminated()` inside a step or callback, under an absorbing
 `except BaseException` —, steps that end with a **BaseException**, and **cancellation** of a task at the await point
-where it is suspended: `unwind` = the `finally` of every open scope, innermost first, up to the absorbing handler).
+where it is suspended: `unwind` = the `finally` of every open scope, innermost first, up to the absorbing handler;
+callbacks scheduled on **another** process — `creator.call_soon(cb)` from code of a process that the creator launched,
+executed or awaits inline, so that the callback's task starts on a stack that already holds the creator *below* the
+scheduling process — and callbacks that **raise**, after which `ProcessCallback.run` calls the public hook
+`callback_excepted` in the callback's task, outside the scope).
 
 Everything below quantifies over **every scenario** (any number of process classes with any step/segment structure,
 callbacks, children — launched, executed re-entrantly or awaited inline, to any depth —, any step ending, any classes
@@ -30,6 +34,14 @@ Clause by clause:
                                                               `C18_unwind_well_scoped`, `C18_cancel_touches_no_stack`,
                                                               `C18_finished_task_left_every_scope`,
                                                               `C18_scope_restores_all`
+* a callback scheduled on another process (its creator) runs with *that* process current, on top of the stack of the
+  code that scheduled it; what runs in the callback's task after the callback's scope (`callback_excepted`) observes
+  exactly what the scheduling code observed               → `C18_callback_on_creator_in_scope`,
+                                                              `C18_callback_task_inherits_scheduling_context`,
+                                                              `C18_raising_callback_code`,
+                                                              `C18_callback_excepted_sees_previous`,
+                                                              `C18_witness_callback_excepted_sees_scheduler` (F14 again:
+                                                              that hook, too, runs outside the scope)
 * the `assert` in `_process_scope` never fires              → `C18_scope_assertion_never_fails`
 -/
 namespace ProcStack
@@ -180,13 +192,79 @@ theorem C18_scope_restores_all (scn : Scenario) (top : List Nat) (es : List Even
    fun hu hne hcs => C18_scope_restores_others _ t u hu hne hcs,
    C18_resume_touches_no_stack _ t u, C18_kill_touches_no_stack _ t u, C18_cancel_touches_no_stack _ t u⟩
 
+/-! ## Callbacks scheduled on another process, callbacks that raise -/
+
+/-- the instance of `C18_current_in_scope` for scheduled callbacks, **whoever scheduled them**: at the entry of a callback
+and after each of its awaits `Process.current()` is the process the callback was scheduled *on* (`p.call_soon(cb)`), also
+when the call was made by code of another process (`creator.call_soon(cb)`: the callback's task starts on the stack of
+that code, e.g. creator·child, and runs on creator·child·creator); and the code that made the call carries on with its own
+process current (`pcret`). -/
+theorem C18_callback_on_creator_in_scope (scn : Scenario) (top : List Nat) (es : List Event) :
+    ∀ o ∈ (runEvents (init scn top) es).log, (o.kind = .cbseg ∨ o.kind = .cbaw ∨ o.kind = .pcret) → o.cur = some o.owner := by
+  intro o ho hk
+  apply C18_current_in_scope scn top es o ho
+  rcases hk with h | h | h <;> simp [h, Kind.inScope]
+
+/-- **the task of a callback starts in the context of the code that called `call_soon`**, not in one derived from the
+process the callback belongs to: when code of `p` (task `t`, stack `T.stack`) runs `creator.call_soon(cb)` and `p` has the
+creator `q`, one task is appended whose stack is `T.stack` and whose coroutine is `ProcessCallback.run` of `q` — compiled
+with `T.stack` as the value that `callback_excepted` must find; nothing else changes in the task list. -/
+theorem C18_callback_task_inherits_scheduling_context (σ : State) (t : Tid) (T : Task) (p q : Pid) (cb : Nat)
+    (rest : List Op) (code : List Act)
+    (hT : σ.tasks[t]? = some T) (hc : T.code = .callSoonCreator p cb :: rest)
+    (hcb : σ.scn.cbs[cb]? = some code) (hq : creatorOf σ p = some q) :
+    (exec1 σ t).1.tasks =
+      σ.tasks.set t { T with code := rest } ++ [{ stack := T.stack, code := cbCode σ.scn q T.stack cb code }] := by
+  simp [exec1, hT, hc, hcb, hq]
+
+/-- the coroutine of a callback that ends by raising: enter the scope of `q`, the callback's code, leave the scope through
+the exception, then `q.callback_excepted(..)` — whose sample is checked against `sched` -/
+theorem C18_raising_callback_code (scn : Scenario) (q : Pid) (sched : List Pid) (cb : Nat) (code : List Act)
+    (hr : scn.cbRaise.contains cb = true) :
+    cbCode scn q sched cb code = .push q :: (codeOps q true code ++ [.pop q .exception, .excepted q sched]) := by
+  unfold cbCode
+  rw [if_pos hr]
+  rfl
+
+/-- **what runs after a callback's scope, in the callback's task, observes the previous value**: every call of
+`callback_excepted` (a callback raised; `_run_task`, hence the scope, was left through the exception) finds the stack —
+and so the `Process.current()` — that the code which called `call_soon` had at that moment, and its sample is in the log
+with exactly that value; whatever the callback did (awaits, further callbacks, nested executions, children awaited
+inline) and wherever the process the callback belongs to sits in that stack: on top (a callback scheduled by the process
+on itself), nowhere (scheduled from outside), or **below another process** (scheduled by a child on its creator while the
+creator's step is still running underneath: the stack creator·child·creator must go back to creator·child, not to
+child·creator). -/
+theorem C18_callback_excepted_sees_previous (scn : Scenario) (top : List Nat) (es : List Event) :
+    ∀ x ∈ (runEvents (init scn top) es).cbExcs,
+      x.observed = x.scheduled ∧
+      (⟨x.pid, .hook .callback_excepted, current x.scheduled, x.scheduled, x.tid⟩ : Obs) ∈ (runEvents (init scn top) es).log :=
+  (reachable_inv scn top es).cbExcs
+
+/-- class 0 (`outer`): its step executes a child of class 1 re-entrantly; class 1 (`inner`): schedules callback 0 on its
+creator, awaits twice; callback 0: sample, then `raise` -/
+def sandwichScn : Scenario :=
+  { classes := [[⟨[.execute 1, .obs], .finish⟩], [⟨[.callSoonCreator 0, .await, .await, .obs], .finish⟩]],
+    cbs := [[.obs]], cbRaise := [0] }
+
+/-- outer's step (task 0) starts and blocks in `execute()`; the nested loop runs inner (task 1), which schedules the
+callback on outer (task 2); the callback runs and raises; inner finishes; outer's step carries on -/
+def sandwichEvents : List Event := [.tick 0, .tick 1, .tick 2, .tick 1, .tick 1]
+
+/-- **witness** (F14 for one more hook, and the shape that tells `pop()` from `remove(self)`): inside the callback the
+stack is outer·inner·outer and `current()` is outer; `callback_excepted` of outer then observes **inner** — the previous
+value —, on the stack outer·inner (stacks are newest first in the model) -/
+theorem C18_witness_callback_excepted_sees_scheduler :
+    (⟨0, .cbseg, some 0, [0, 1, 0], 2⟩ : Obs) ∈ (runEvents (init sandwichScn [0]) sandwichEvents).log ∧
+    (⟨0, .hook .callback_excepted, some 1, [1, 0], 2⟩ : Obs) ∈ (runEvents (init sandwichScn [0]) sandwichEvents).log := by
+  decide
+
 /-! ## The hook clause is false of the code: witnesses (known finding F14) -/
 
 /-- one process, one step, nothing in it -/
-def witnessScn : Scenario := ⟨[[⟨[], .finish⟩]], []⟩
+def witnessScn : Scenario := { classes := [[⟨[], .finish⟩]], cbs := [] }
 
 /-- a parent whose step launches a child of class 1 -/
-def witnessChildScn : Scenario := ⟨[[⟨[.launch 1], .finish⟩], [⟨[], .finish⟩]], []⟩
+def witnessChildScn : Scenario := { classes := [[⟨[.launch 1], .finish⟩], [⟨[], .finish⟩]], cbs := [] }
 
 /-- **witness**: in the model — as in the code — the first tick of a top-level process fires `on_run` (from
 `transition_to`, after `_run_task(Created.execute)` returned) and that hook observes `Process.current() = None` -/
@@ -221,9 +299,9 @@ theorem C18_transition_hooks_are_lifecycle (old : Option PMF.Label) (new : PMF.L
 /-- class 0: `run` = sample, await, out, call_soon(cb 0), launch(class 1), execute(class 1), then `Wait`, then a last step;
 class 1: await, sample, raise -/
 def demoScn : Scenario :=
-  ⟨[[⟨[.obs, .await, .out, .callSoon 0, .launch 1, .execute 1], .wait⟩, ⟨[.obs], .finish⟩],
-    [⟨[.await, .obs], .raise⟩]],
-   [[.obs, .await]]⟩
+  { classes := [[⟨[.obs, .await, .out, .callSoon 0, .launch 1, .execute 1], .wait⟩, ⟨[.obs], .finish⟩],
+                [⟨[.await, .obs], .raise⟩]],
+    cbs := [[.obs, .await]] }
 
 /-- two top-level processes; the nested loop of `execute()` ticks the other top-level process, the callback and the
 child before the nested process; the parked process is resumed at the end -/
@@ -253,12 +331,12 @@ class 4; class 1: await, sample, `Wait`, then a step that raises a BaseException
 inline (nesting depth 3), await; class 3: sample, await, sample (also instantiated at top level: a peer in another task);
 class 4: out, `Wait` -/
 def inlineScn : Scenario :=
-  ⟨[[⟨[.inline 1, .obs, .await, .inline 2, .inline 4], .finish⟩],
-    [⟨[.await, .obs], .wait⟩, ⟨[.obs], .raiseBase⟩],
-    [⟨[.await, .inline 3, .await], .finish⟩],
-    [⟨[.obs, .await, .obs], .finish⟩],
-    [⟨[.out], .wait⟩, ⟨[], .finish⟩]],
-   []⟩
+  { classes := [[⟨[.inline 1, .obs, .await, .inline 2, .inline 4], .finish⟩],
+                [⟨[.await, .obs], .wait⟩, ⟨[.obs], .raiseBase⟩],
+                [⟨[.await, .inline 3, .await], .finish⟩],
+                [⟨[.obs, .await, .obs], .finish⟩],
+                [⟨[.out], .wait⟩, ⟨[], .finish⟩]],
+    cbs := [] }
 
 /-- the parent (task 0, pid 0) and a peer (task 1, pid 1) interleaved; the first inline child (pid 2) is resumed from its
 wait and raises a BaseException; the task is cancelled while the child of the child (pid 4, stack 0·3·4) is suspended at
@@ -295,9 +373,37 @@ example : let T := ((runEvents (init inlineScn [0, 3]) (inlineEvents.take 8)).ta
     ((unwind .cancelled 0 T.code).take 2) = [.pop 4 .cancelled, .handler 3 [3, 0] true] := by decide
 /-- a top-level process cancelled in the middle of its step: its task ends (nothing absorbs), the scope was left (`cancelled`),
 no transition hook ran after it, and the open-scope history of the finished task is empty -/
-example : let σ := runEvents (init ⟨[[⟨[.await, .obs], .finish⟩]], []⟩ [0]) [.tick 0, .cancel 0, .tick 0]
+example : let σ := runEvents (init { classes := [[⟨[.await, .obs], .finish⟩]], cbs := [] } [0]) [.tick 0, .cancel 0, .tick 0]
     σ.err = none ∧ σ.tasks.map (fun T => (T.done, T.stack, T.saved)) = [(true, [], [])] ∧
     σ.scopes.map (fun x => (x.pid, x.how, x.before, x.after)) = [(0, .cancelled, [], []), (0, .returned, [], [])] ∧
     (σ.log.head?.map (·.kind)) = some .seg := by decide
+
+/-! ## Non-vacuity for callbacks on the creator and raising callbacks -/
+
+example : (runEvents (init sandwichScn [0]) sandwichEvents).err = none := by decide
+example : (runEvents (init sandwichScn [0]) sandwichEvents).tasks.all (·.done) = true := by decide
+/-- one call of `callback_excepted`: task 2, process 0, scheduled on the stack [1, 0] (outer·inner), observed the same -/
+example : (runEvents (init sandwichScn [0]) sandwichEvents).cbExcs = [⟨2, 0, [1, 0], [1, 0]⟩] := by decide
+/-- the callback's scope was left through the exception (first record = latest), between it and the scope of inner's step -/
+example : ((runEvents (init sandwichScn [0]) sandwichEvents).scopes.map (fun x => (x.tid, x.pid, x.how, x.before))).take 4 =
+    [(0, 0, .returned, []), (1, 1, .returned, [0]), (2, 0, .exception, [1, 0]), (1, 1, .returned, [0])] := by decide
+/-- hypotheses of `C18_callback_task_inherits_scheduling_context` are met in a reachable state (inner = process 1 has the
+creator 0, outer has none); after inner's first tick the callback's task exists, on inner's stack, and its coroutine starts
+with the scope of outer and ends with `callback_excepted` expecting inner's stack -/
+example : let σ := runEvents (init sandwichScn [0]) (sandwichEvents.take 2)
+    creatorOf σ 1 = some 0 ∧ creatorOf σ 0 = none ∧
+    (σ.tasks[2]?.map (fun T => (T.stack, T.code.head?, T.code.getLast?))) =
+      some ([1, 0], some (.push 0), some (.excepted 0 [1, 0])) := by decide
+example : sandwichScn.cbRaise.contains 0 = true ∧ sandwichScn.wf [0] = true := by decide
+/-- why this shape matters: leaving the innermost scope means dropping the *top* entry; dropping the bottom-most occurrence
+of the process instead (`list.remove`) would turn outer·inner·outer into inner·outer -/
+example : ([0, 1, 0] : List Pid).tail = [1, 0] ∧ (([0, 1, 0] : List Pid).reverse.erase 0).reverse = [0, 1] := by decide
+/-- the three samples of the kinds of `C18_callback_on_creator_in_scope` in this run, and a process without creator for
+which `creator.call_soon` schedules nothing -/
+example : ((runEvents (init sandwichScn [0]) sandwichEvents).log.filter
+    (fun o => o.kind == .cbseg || o.kind == .cbaw || o.kind == .pcret)).map (fun o => (o.owner, o.kind, o.stack)) =
+    [(0, .cbseg, [0, 1, 0]), (1, .pcret, [1, 0])] := by decide
+example : (runEvents (init { classes := [[⟨[.callSoonCreator 0], .finish⟩]], cbs := [[]] } [0]) [.tick 0]).tasks.length = 1 := by
+  decide
 
 end ProcStack
